@@ -123,8 +123,8 @@ func ruleGuardReceivers(c *Ctx, rule string) {
 	want := map[string]string{
 		"(*InjectorProviderCallStmt).generateChannelWaitStatement":  "field:internal/kessoku.InjectorCallArgument.Param(index(field:internal/kessoku.InjectorProviderCallStmt.Arguments(param:stmt)))",
 		"(*InjectorProviderCallStmt).generateChannelCloseStatement": "index(field:internal/kessoku.InjectorProviderCallStmt.Returns(param:stmt))",
-		"generateVariableSpecs":                                     "index(field:internal/kessoku.Injector.Vars(param:injector))",
-		"(*InjectorFieldAccessStmt).Stmt":                           "field:internal/kessoku.InjectorFieldAccessStmt.ReturnParam(param:stmt)",
+		"generateVariableSpecs":           "index(field:internal/kessoku.Injector.Vars(param:injector))",
+		"(*InjectorFieldAccessStmt).Stmt": "field:internal/kessoku.InjectorFieldAccessStmt.ReturnParam(param:stmt)",
 	}
 	for name, wantRecv := range want {
 		fn := genFn(c, rule, name)
@@ -402,7 +402,7 @@ func ruleArgumentOnlyWhenUnsupplied(c *Ctx, rule string) {
 				if u, isNot := cond.(*ssa.UnOp); isNot && u.Op == token.NOT {
 					cond, negated = u.X, true
 				}
-				ex, ok := cond.(*ssa.Extract)
+				ex, ok := throughCell(cond).(*ssa.Extract)
 				if !ok || ex.Index != 1 {
 					if _, isPhi := cond.(*ssa.Phi); isPhi {
 						// a compound condition (`ok && ...`) sits between the lookup and the argument path
@@ -523,8 +523,15 @@ func ruleMigrateRound2(c *Ctx) {
 					n++
 					ruleDecidedBy(c, "C13.6", "transformStruct:field-inclusion", "a struct field is injected iff it is selected (\"*\" or listed by name) and is not an unexported field of another package - nothing else (tags, types) filters fields",
 						f2.Blocks[0], a.call, func(id string, v ssa.Value) bool {
-							return strings.Contains(id, `"*"`) || strings.Contains(id, "migrate.contains(") || strings.Contains(id, "Exported(") || strings.Contains(id, "isExternalPkg") || strings.HasPrefix(id, "phi-in:") ||
-								strings.Contains(id, "jump$") || strings.HasPrefix(id, "load:") || strings.HasPrefix(id, "freevar:") || strings.Contains(id, "zero:") || constUnion(id)
+							// an atom that does not look at the field being visited (struct-level facts, loop plumbing) cannot filter fields
+							fieldDependent := strings.Contains(id, "go/types.Var") || strings.Contains(id, "Struct).Tag(") || strings.Contains(id, "Struct).Field(")
+							if len(f2.Params) > 0 && strings.Contains(id, "param:"+f2.Params[0].Name()) && f2.Parent() != nil {
+								fieldDependent = true
+							}
+							if !fieldDependent {
+								return true
+							}
+							return strings.Contains(id, "Exported(") || strings.Contains(id, "migrate.contains(") || (strings.Contains(id, ").Name(") && !strings.Contains(id, "Tag("))
 						})
 				}
 			}
